@@ -227,7 +227,9 @@ CLAIMED["C02"] = dict(
          "REAL row (dumped expression with the parameter values the code computed from roughness, diameter, length, minor loss, curve "
          "points, settings) equals the model row over flow sweeps of either sign and around zero; every link at sampled reported steps "
          "of generated runs satisfies the row of its reported status within the solver tolerance; pumps and check-valve pipes never "
-         "report reverse flow beyond Qtol (incl. a directed low-resistance CV bypass family).",
+         "report reverse flow beyond Qtol (incl. a directed low-resistance CV bypass family). Also proved: the head gain the row assigns to a head pump is STRICTLY decreasing in the flow for every flow "
+         "(linear extension, smoothing cubic, curve) -- exponent > 1 unconditionally, exponent <= 1 under a Fritsch-Carlson premise that coqc proves "
+         "per pump -- i.e. the pump law is strictly increasing, the hypothesis of C03's uniqueness theorem.",
     ref="DESIGN.md section 5 C02",
     note="Trusted: Coq kernel; stdlib real axioms; coq-interval; translator chains.py; row dumper. Oracle: scipy curve_fit for 3-point curves "
          "(its A,B,C are inputs). Not modelled: HW_approx='piecewise'. Partial: 'no reverse flow' for pumps/CVs is an observation on "
